@@ -27,6 +27,9 @@ typedef unsigned long uintptr_t;
 #ifndef VERIF_ITEM_CAP
 #define VERIF_ITEM_CAP 64
 #endif
+#ifndef VERIF_ORACLE_N
+#define VERIF_ORACLE_N 24   /* capacity of the oracle call logs (signature checker, FindAndDelete) */
+#endif
 #ifndef VERIF_STACK_W
 #define VERIF_STACK_W 4
 #endif
@@ -219,6 +222,12 @@ public:
     explicit runtime_error(const string& s) {}
     explicit runtime_error(const char* s) {}
 };
+inline bool equal(const unsigned char* b1, const unsigned char* e1, const unsigned char* b2) {
+    size_t n = e1 - b1;
+    for (size_t i = 0; i < 80; ++i) { if (i >= n) break; if (b1[i] != b2[i]) return false; }
+    VERIF_LIMIT(n <= 80, "std::equal modelled for ranges <= 80 bytes");
+    return true;
+}
 inline bool lexicographical_compare(const unsigned char* b1, const unsigned char* e1, const unsigned char* b2, const unsigned char* e2) {
     size_t n1 = e1 - b1, n2 = e2 - b2;
     for (size_t i = 0; i < 32; ++i) {   // model: ranges of at most 32 bytes (uint256 / control-block nodes)
